@@ -36,7 +36,7 @@ Chk(props, p, name, cond) == IF p \notin props THEN {} ELSE IF cond THEN {} ELSE
 (***************************************************************************)
 (* cfg = [ nk, na, ni,                                                     *)
 (*         keyof : arg -> key,  f : arg -> value (0 when it raises),       *)
-(*         kind  : arg -> "ok" | "raise" | "unkey",                        *)
+(*         kind  : arg -> "ok" | "raise" | "unkey" | "unkeyraise",         *)
 (*         fk    : key -> value,                                           *)
 (*         inst  : i -> [alg, maxsize, purge, safe],                       *)
 (*         shared: archive ids that are shared storage between instances ] *)
@@ -57,6 +57,7 @@ CallClass(cfg, S, i, a) ==
       res  == S.mem[i][k] # 0
       ina  == S.cur[i] # 0 /\ ArchOf(cfg, S.archs, S.cur[i])[k] # 0
   IN IF cfg.kind[a] = "unkey" THEN "fallback"
+     ELSE IF cfg.kind[a] = "unkeyraise" THEN "raise"      \* cannot be keyed AND the function raises for it
      ELSE IF alg = "no" THEN (IF res \/ ina THEN "load"
                               ELSE IF cfg.kind[a] = "raise" THEN "raise" ELSE "miss")
      ELSE IF res THEN "hit"
